@@ -34,7 +34,8 @@ Inductive op :=
 | OECompact (h : handle) (start limit : okey)        (* Compact forwarded to the engine: nil or error *)
 | OLit (i : nat) (h : handle) (prefix start : okey)  (* an iterator kept alive across later operations *)
 | OLNext (i : nat) (n : nat)                         (* up to n Next() calls on it *)
-| OLRel (i : nat).
+| OLRel (i : nat)
+| OInit (d : nat).                                     (* LazyFlushable.InitUnderlyingDb: produce and install the store, no flush *)
 
 Inductive obs :=
 | BGet (v : option val)
